@@ -120,7 +120,8 @@ func c11Case(run *evid.Run, i int, j *Journal) {
 		shape := model.ShapeDigest(src.Set)
 		nplans := 8
 		for pn := 0; pn < nplans; pn++ {
-			p := faultPlan{Kind: map[string]string{}, Conc: []int{1, 2, 8, 32}[rng.Intn(4)], Policy: policies[rng.Intn(len(policies))]}
+			// 0 and negative values are legal inputs meaning "use the default"
+			p := faultPlan{Kind: map[string]string{}, Conc: []int{1, 2, 8, 32, 1, 2, 0, -1, -32}[rng.Intn(9)], Policy: policies[rng.Intn(len(policies))]}
 			if rng.Intn(3) == 0 {
 				p.Policy = "ungated"
 			}
